@@ -235,8 +235,13 @@ for _pid, _nt, _txt in [("C09", "length >= 2", "TreeWF/EndpointsWF hold on every
 # C10 is also decided on the class alphabet: class values are defaults under an object's own values
 PROPS["C10"]["also"] = ["irclass", "irnest"]
 PROPS["C11"]["also"] = ["irnest"]
+for _pid in ("C10", "C11"):
+    PROPS[_pid]["rule"] += (" Also over the 32-declaration alphabet specs/ir_alphabet_nested.json: connections between objects below a common container, declared, referred to by index and set to null with the container "
+                            "spelled in different letter cases on the two sides, parallel and reversed connections, connections leaving the container, nulls of the container and of an end.")
 # C09's tree and endpoint conditions are also evaluated on every board compiled from the full-language generators
 PROPS["C09"]["also"] = ["pipe_wf"]
+PROPS["C09"]["rule"] += (" The tree and endpoint conditions are also evaluated by TLC (stage wf of TracePipeline) on every board compiled from the full-language generators: modes text, text2, text3, layout and soup, "
+                         "5 x 1200 programs (quick: 5 x 300), read from the graph's own structures (object list, parent pointers, child lists and child maps, connection ends), not from the projection.")
 PROPS["C10"]["rule"] += (" The same is done over the 30-declaration alphabet specs/ir_alphabet_class.json: objects with own shapes and style values, attribute and object null, 7 class definitions (two classes, one spelled in another letter case, "
                          "definitions before and after their uses, a redefinition), 8 class assignments (single, lists in both orders, an unknown class, on a nested object) and the removal of the class.")
 PROPS["C10"]["assumptions"] = _ir_assume + ["classes (DEVIATION-4 of D2IR.tla, following the code where the property text is silent): a class value is a default under the object's own value wherever either is written; the last class assignment replaces earlier ones; "
@@ -281,9 +286,11 @@ PROPS["C12"] = dict(
     also=["iredge"],
     rule="programs over the 28-declaration alphabet specs/ir_alphabet_glob.json: objects at depth 1-3 (one mixed-case), explicit shapes/strokes/labels, object nulls, connections, and 13 glob rules "
          "(* and ** at the root, scoped a.* and a.**, b.*, prefix patterns a* and A*, suffix patterns *2, *B and *C with upper-case literals, infix a*2) setting shape, label, stroke, opacity; every program of length <= 2 / <= 3 plus 2500 / 30000 seeded programs of length up to 7 / 10. "
-         "Non-trivial: contains a glob and at least one more declaration.",
+         "Non-trivial: contains a glob and at least one more declaration. Also over the 23-declaration alphabet specs/ir_alphabet_edgeglob.json: top-level objects (one nested, one in another letter case), explicit connections with and without labels, "
+         "the creation rules * -> * and * -- *: und, seven attribute rules on connections ((* -> *)[*], (a -> *)[*], (* -> b)[*], (a -> b)[*], (A -> *)[*], (* -- *)[*] setting stroke, opacity, label) and indexed references to explicit and glob-made connections.",
     exhaustive=dict(quick=True, thorough=True),
-    assumptions=["object globs with scalar bodies only; glob filters, edge globs, triple globs across boards/imports and globs written inside a nested map are not in this alphabet",
+    assumptions=["globs with scalar bodies only; glob filters, triple globs across boards/imports, globs written inside a nested map and connection globs below the top level or with a literal end in a creation rule are not in these alphabets",
+                 "connection globs: the connections one creation rule makes have no mandated order among themselves (they first appear at the same source line); compared as a set once such a rule stands; a glob declaration is not repeated verbatim within a program (KF-C12-1's subject)",
                  "pattern matching on names is the alphabet's match table (TLC cannot compute on characters); the real matcher decides which names each pattern selects in the code"] + _ir_assume,
     text="GlobNow/GlobLater hold as action properties over every program within the bound; the real compiler's object attributes after every prefix must equal the model's, which applies each rule to existing and later-created targets in source order.",
     note="Trusted: TLC, Json module, the projection and renderer in the harness, the alphabet's pattern-match table.")
@@ -361,18 +368,22 @@ def _pp(pid, fam, design, technique, rule, text, assumptions, exhaustive=True):
 
 _gen_text2 = ("mode text2: mode text plus line comments of every form (empty, blank, tab, trailing blanks, indented, inside maps, before connections), block comments, labels spelled like numbers (007, +5, 0x1F, 1_000, 1e3, .5), "
               "explicit boundary values of style keywords on shapes and connections, links and tooltips on labelled connections; ")
+_gen_text3 = ("mode text3: mode text2 plus sql_table and class shapes whose columns, fields and methods are named like other objects and are ends of connections, connection references in every form "
+              "((a -> b).k, (a -> b)[i].k, (a -> b)[*].k, (a -> *)[*].k, c.(x -> y)[i].k, with maps and flat keys), block strings (markdown, code, other tags, `|`` and || delimiters) with whitespace-only lines, "
+              "and boards declared with an empty map, a label and an empty map, or no map; mode soup (harness/internal/gen/soup.go): 2-14 statements drawn independently from the whole surface syntax - globs of all three depths "
+              "with filters, substitutions and spreads, imports, underscores, connection chains, arrays, block strings, board keywords as keys and values, keywords in odd letter case, comments, missing final newline; ")
 _gen_text = "mode text: object trees of 1-6 objects with plain and tricky names/labels (quotes, dots, unicode, XML metacharacters, keywords), containers, styles, classes, markdown, grids, sequence diagrams, near constants, and layers/scenarios/steps blocks placed before, between or after the other declarations; "
 _pp("C03", "pipe_fmt", "4.11", "stage guard on Format: TLC evaluates parse(fmt(x)) ok and fmt(fmt(x)) = fmt(x) on the real formatter's output for every generated program",
-    _gen_text + _gen_text2 + "1200 + 1200 programs. Non-trivial: the program parses.", "Format is a stage transition of TracePipeline; its guard is the property.",
+    _gen_text + _gen_text2 + _gen_text3 + "4 x 1200 programs (quick: 4 x 300). Non-trivial: the program parses.", "Format is a stage transition of TracePipeline; its guard is the property.",
     ["byte equality of the two formatter outputs is computed in Go and judged by TLC as a flag"])
 _pp("C04", "pipe_fmt", "4.11", "stage guard on Format: the projection (all boards: objects, labels, shapes, attributes, connections with index) of compile(x) must equal that of compile(fmt(x)), judged by TLC",
-    _gen_text + _gen_text2 + "1200 + 1200 programs. Non-trivial: the program compiles.", "Same stage as C03 with the meaning-preservation guard.",
+    _gen_text + _gen_text2 + _gen_text3 + "4 x 1200 programs (quick: 4 x 300). Non-trivial: the program compiles.", "Same stage as C03 with the meaning-preservation guard.",
     ["meaning = harness/internal/proj digest of every board (IDs, parents, labels, shapes, every attribute, connections with endpoints/arrows/index/labels)"])
 _pp("C07", "pipe_compile", "4.11", "totality monitor on Compile: every call returns a graph or positioned errors, never panics or hangs, within a time bound linear in the input; inputs incl. 1-3 random damages and reserved keywords/config keys with every value shape",
-    _gen_text + "plus mode text-mut: the same programs damaged in 1-3 places (byte deletion/insertion of structural tokens, truncation, duplication, line swaps) or prefixed with reserved/config keywords given scalar, map, array, null, import and substitution values; mode text2 (see C03) and mode text2-mut: program #i holds exactly one declaration of a reserved keyword or configuration key (29 keywords x 31 values incl. board keywords and board paths x 4 places - dotted key, map, connection, inside a layer - plus 13 configuration keys x 31 values, spread over the seeds by a multiplicative permutation) followed by a fixed valid tail with boards, because any error ends compilation before the later passes; 4000 x 4 inputs (quick: 800 x 4). Non-trivial: more than 20 bytes.",
+    _gen_text + "plus mode text-mut: the same programs damaged in 1-3 places (byte deletion/insertion of structural tokens, truncation, duplication, line swaps) or prefixed with reserved/config keywords given scalar, map, array, null, import and substitution values; mode text2 (see C03) and mode text2-mut: program #i holds exactly one declaration of a reserved keyword or configuration key (29 keywords x 31 values incl. board keywords and board paths x 4 places - dotted key, map, connection, inside a layer - plus 13 configuration keys x 31 values, spread over the seeds by a multiplicative permutation) followed by a fixed valid tail with boards, because any error ends compilation before the later passes; " + _gen_text3 + "mode text3-mut: even seeds hold one declaration of one of 28 further keywords (every style keyword, gaps, arrowhead fields, label.near ...) with one of the 31 values in one of the 4 places, odd seeds a damaged text3 program; 4000 x 7 inputs (quick: 800 x 7). An input that kills the driver process (stack overflow) or hangs it is isolated by the crash journal and reported under this property. Non-trivial: more than 20 bytes.",
     "Compile is a stage transition whose guard is the totality contract.", ["time bound 3000 ms + 1 ms per input byte", "import sets are not generated here (no importable files)"])
-_pp("C08", "pipe_det", "4.11", "Compile stage run 1 + 6 concurrent + 2 sequential times per program; TLC checks that the relation input -> projection digest is functional",
-    _gen_text + "1200 programs, each compiled 9 times (6 from concurrent goroutines). Non-trivial: the program compiles.", "Determinism guard of the Compile stage.",
+_pp("C08", "pipe_det", "4.11", "Compile stage run 1 + 6 concurrent + 2 sequential times per program; TLC checks that the relation input -> (projection digest | text of the errors) is functional",
+    _gen_text + _gen_text2 + _gen_text3 + "and the -mut modes of C07 (so that erroneous programs are compared too); 6 x 1200 programs (quick: 6 x 150), each compiled 9 times (6 from concurrent goroutines). Non-trivial: every program.", "Determinism guard of the Compile stage.",
     ["GOMAXPROCS is the machine default; the race detector is not used in this check"])
 _gen_layout = ("mode layout: 1-7 objects, all 17 shapes, containers to depth 3, explicit sizes, styles (3d, multiple, shadow, fonts), icons, root direction, up to 5 connections (incl. self loops and containers), "
                "grids, sequence diagrams, constant nears; mode layout-tricky: names/labels with special characters, markdown; every 4th diagram laid out with ELK, the others with dagre; 2 x 1200 diagrams. ")
